@@ -44,7 +44,9 @@ Menu(n, m) ==
 MenuOf == [m \in Mems |-> Menu(N, m)]
 DenseOf == [m \in Mems |-> Dense(N, Menu(N, m))]
 PatSeq == SetToSeq(VarPatterns)
-FirstPatterns == {PatSeq[i] : i \in {j \in 1..Len(PatSeq) : j % ShardN = ShardK}}
+PatIdx(p) == CHOOSE i \in 1..Len(PatSeq) : PatSeq[i] = p
+\* shards are balanced over the patterns of the first TWO variables (n >= 2)
+InShard(pt) == (PatIdx(pt[1]) * Len(PatSeq) + (IF N >= 2 THEN PatIdx(pt[2]) ELSE 0)) % ShardN = ShardK
 
 VARIABLES pat, mem, done, bad
 vars == <<pat, mem, done, bad>>
@@ -55,7 +57,7 @@ Prob == [n |-> N,
          B |-> DenseOf[mem]]
 
 Init == /\ pat \in [1..N -> VarPatterns]
-        /\ pat[1] \in FirstPatterns
+        /\ InShard(pat)
         /\ mem \in Mems
         /\ done = FALSE /\ bad = {}
         /\ ~ProjGradZero(Prob)
